@@ -8,6 +8,21 @@ CHECKS = {
    text="Every schedule (at mutex/once/channel/select/reflect.Select granularity) of 9 closed 2-4 thread scenarios over the real aqua/event Feed/Subscription/Scope code is executed up to a deviation bound (quick 2, thorough 3-5) and checked by an interval-order oracle (exactly-once, no delivery after Unsubscribe returned, Send count, common order, no deadlock, no leaked goroutine). A coverage statement for the bound, not a proof.",
    note="Trusts: testing/synctest quiescence detection (go1.26.8); the AST instrumenter that inserts scheduling points into an overlay copy of the current sources; small-scope hypothesis. Data races are outside the cooperative scheduler.",
    ref="4/C19, 2.2"),
+ "C02": dict(cat="model_checking", engine="E2-seqx",
+   technique="explicit-state exploration of the implementation: every arrival history (tree class x linear extension x batching x fork-choice coin answers) replayed on the real BlockChain, invariant checked after every transition",
+   text="All unordered weighted block trees with <= 4 (quick) / 5 (thorough) blocks and difficulties {1,2,3}, every parent-closed arrival order, every batching into linked segments <= 3 and both answers of the exact-tie coin are imported into a fresh real core.BlockChain; after every InsertChain the stored TD arithmetic, 'head is a heaviest imported block', TD monotonicity and the persisted head pointer are checked against own arithmetic. Exhaustive within the stated bounds.",
+   note="Trusts: full-fake engine (header rules skipped so arbitrary difficulties import), overlay rewrite that routes math/rand's coin through an enumerated script, exported core.GenerateChain as block builder. Small-scope hypothesis on tree size.",
+   ref="4/C02, 2.3"),
+ "C03": dict(cat="model_checking", engine="E2-seqx",
+   technique="explicit-state exploration of the implementation: every operation history over InsertChain / InsertHeaderChain / SetHead on small transaction-carrying block trees, at-rest invariant after every transition",
+   text="All weighted trees with <= 4/5 blocks (difficulties {1,2}) whose blocks carry a transaction shared by sibling branches and a branch-only transaction; every arrival order, batching, coin answer, plus one SetHead(n) for every n inserted after every prefix; full-import chain and header-first twin. After every operation: number index == ancestry of the head, nothing mapped above it, header/body/receipts/TD retrievable, transaction lookups resolve iff canonical.",
+   note="Trusts: as C02; 'lookup resolves' is defined through core.GetTransaction, the function the RPC API uses.",
+   ref="4/C03, 2.3"),
+ "C04": dict(cat="fault_enumeration", engine="E3-crashx",
+   technique="exhaustive crash-point and single-fault enumeration: every prefix of the recorded atomic write-unit log is materialised and reopened, every unit is made to fail once, on the real import/reorg/SetHead/Stop paths",
+   text="6 (quick) / 8 (thorough) histories (linear, reorg to longer, reorg to shorter-heavier, side chain in two batches, three-way fork, SetHead+re-import, pre-image heavy) under archive and pruning configurations and Batch.ValueSize scales x1/x64/x1024: for every prefix of the unit log the image is reopened with NewBlockChain and the recovery oracle (no panic, admissible head, complete head state by an independent raw-image trie walker, index agrees with ancestry, root-present-implies-trie-present, re-feed converges) is applied; for every unit a failure is injected and the lock-idle / no-deadlock / recovery oracle applied.",
+   note="Trusts: atomic-unit crash model (no torn batches), full-fake engine, log.Crit->sentinel rewrite, deadlock watchdog (20 s + goroutine parked on a sync primitive, unchanged for 2 s). Known open findings are listed in known_findings.jsonl.",
+   ref="4/C04, 2.4"),
 }
 NOT_YET = {}
 def main():
